@@ -106,11 +106,18 @@ def _invalidate(p: Path, names):
         del p.conds[k]
 
 
+_NEG_OPS = {ast.IsNot: ast.Is, ast.NotEq: ast.Eq, ast.NotIn: ast.In}
+
+
 def _cond_key(test: ast.AST) -> Tuple[str, bool]:
+    """Canonical text of a test and whether the test is its negation (`not x`, `a is not b`, `a != b`, `a not in b`)."""
     inv = False
     while isinstance(test, ast.UnaryOp) and isinstance(test.op, ast.Not):
         inv = not inv
         test = test.operand
+    if isinstance(test, ast.Compare) and len(test.ops) == 1 and type(test.ops[0]) in _NEG_OPS:
+        pos = ast.Compare(left=test.left, ops=[_NEG_OPS[type(test.ops[0])]()], comparators=test.comparators)
+        return ast.unparse(pos), not inv
     return ast.unparse(test), inv
 
 
@@ -287,6 +294,15 @@ class _Enum:
             for t in tgts:
                 if isinstance(t, (ast.Name, ast.Tuple, ast.List)):
                     _invalidate(p, _assigned_names(t))
+            # constant propagation for simple flags: x = True/False/None fixes later tests on x
+            if isinstance(st, ast.Assign) and len(tgts) == 1 and isinstance(tgts[0], ast.Name) and isinstance(val, ast.Constant):
+                nm = tgts[0].id
+                if isinstance(val.value, bool):
+                    p.conds[nm] = (val.value, frozenset({nm}))
+                    p.conds[f"{nm} is None"] = (False, frozenset({nm}))
+                elif val.value is None:
+                    p.conds[f"{nm} is None"] = (True, frozenset({nm}))
+                    p.conds[nm] = (False, frozenset({nm}))
             return [p]
         if isinstance(st, (ast.FunctionDef, ast.AsyncFunctionDef, ast.ClassDef)):
             p.events.append(Ev("def", st, st))
